@@ -82,6 +82,39 @@ def component_results(comp: str, tier: str) -> dict:
     return core.cached(comp, tier, compute)
 
 
+COV_FILES = {
+    "sim": ("sim_services/", "reg_access.py"),
+    "queue": ("reg_access.py",),
+    "loader": ("processor_utils/", "errors.py"),
+    "text": ("program_utils.py", "program_defs.py", "str_utils.py", "container_utils.py", "hw_loading.py", "processor_sim.py"),
+}
+
+
+def impl_coverage(comp: str) -> dict | None:
+    """thorough tier only: branch coverage of the anchored implementation files under this component's generators
+    (evidence about the strength of the tie, never a verdict)"""
+    if comp not in COV_FILES:
+        return None
+
+    def compute():
+        import subprocess
+
+        n = {"sim": 1500, "queue": 600, "loader": 2500, "text": 1500}[comp]
+        r = subprocess.run([sys.executable, "-m", "harness.covrun", comp, str(n)], cwd=VERIF, capture_output=True, text=True)
+        if r.returncode != 0:
+            return {"error": r.stderr[-500:]}
+        d = json.loads(r.stdout.strip().splitlines()[-1])
+        files = {f: v for f, v in d["files"].items() if f.startswith(COV_FILES[comp]) and v["statements"]}
+        tot_b = sum(v["branches"] for v in files.values())
+        mis_b = sum(v["missing_branches"] for v in files.values())
+        tot_s = sum(v["statements"] for v in files.values())
+        mis_s = sum(v["missing_statements"] for v in files.values())
+        return {"cases": d["cases"], "statements": tot_s, "missing_statements": mis_s, "branches": tot_b,
+                "missing_branches": mis_b, "files": files}
+
+    return core.cached("cov-" + comp, "thorough", compute)
+
+
 def write_replay(prop: str, payload: dict) -> str:
     os.makedirs(os.path.join(VERIF, "replays"), exist_ok=True)
     blob = json.dumps(payload, sort_keys=True, indent=1)
@@ -267,6 +300,7 @@ def main() -> int:
                         "differential check of the implementation against an executable Lean model and evaluation of the "
                         "property's Bool spec (Lean) on the implementation's output; no theorem registered yet"),
         "exhaustive": False,
+        "impl_branch_coverage": impl_coverage(comp) if tier == "thorough" else None,
         "lake_build_s": build_s,
     }
     ev = {"property_id": prop, "tier": tier, "seed": seed, "level": level, "coverage": coverage,
